@@ -15,6 +15,7 @@ CONSTANTS
   ArmorHdrs = {1}
   SigBools = {TRUE, FALSE}
   BigSel = {}
+  ArmorMaxFields = 3
   Emit = TRUE
 SPECIFICATION LSpec
 VIEW LView
